@@ -259,23 +259,77 @@ def rule_L5(ctx: Ctx) -> None:
     st = X.assignments_to(t.node, "stripped")
     ok = ok and len(st) == 1 and X.same_expr(st[0], "strip_func(coord_str.lstrip('(').rstrip(')'))")
     ctx.judge(t, ok, {"returns": X.U(r[0].value) if r else None}, "a coordinate string is parsed as the comma-separated integers between the parentheses, in order")
+    # strings_to_coords / coords_to_strings by abstract evaluation over a symbolic token sequence, for each when_noncoord policy and
+    # for list and space-joined string input (models: the UT splitter splits at spaces; '(i,j)' strings are the coordinates)
+    from sa.fold import EvalRaised, Evaluator, Unknown
+
+    def hooks(ev, node, env):
+        d = dotted_of(node.func) or ""
+        if d == "warnings.warn":
+            return None
+        if d == "coords_string_split_UT" and node.args:
+            return str(ev.ev(node.args[0], env)).split()
+        if d == "coord_str_to_tuple_noneable" and node.args:
+            t_ = ev.ev(node.args[0], env)
+            return tuple(int(x) for x in t_[1:-1].split(",")) if isinstance(t_, str) and t_.startswith("(") and t_.endswith(")") else None
+        if d == "str_is_coord" and node.args:
+            t_ = ev.ev(node.args[0], env)
+            return isinstance(t_, str) and t_.startswith("(") and t_.endswith(")")
+        if d == "coord_str_to_tuple" and node.args:
+            t_ = ev.ev(node.args[0], env)
+            return tuple(int(x) for x in t_[1:-1].split(","))
+        if d == "isinstance" and len(node.args) == 2 and X.U(node.args[1]) in ("str", "tuple", "list"):
+            return isinstance(ev.ev(node.args[0], env), {"str": str, "tuple": tuple, "list": list}[X.U(node.args[1])])
+        if d == "coord_to_strings_func" and node.args:
+            c_ = ev.ev(node.args[0], env)
+            return [f"({c_[0]},{c_[1]})"]
+        return NotImplemented
+
+    def run(fn, env):
+        try:
+            return Evaluator({"__call__": hooks}).run_body(X.body_wo_doc(fn.node), env)
+        except EvalRaised as e:
+            return f"raises {e.exc_name}"
+
     sc = ctx.index.func(f"{TU}.strings_to_coords")
-    loop = [n for n in sc.node.body if isinstance(n, ast.For)]
-    ok = len(loop) == 1 and isinstance(loop[0].target, ast.Name) and f"coord_str_to_tuple_noneable({X.U(loop[0].target)})" in X.U(loop[0]) \
-        and X.same_expr_x(loop[0].iter, sc.node, "coords_string_split_UT(text if isinstance(text, str) else ' '.join(text))")
-    ctx.judge(sc, ok, {}, "strings_to_coords joins a token list with single spaces, re-splits it with the UT splitter and converts each piece, in order (so list and string inputs parse alike)")
-    for fn_name, loopvar, conv in (("coords_to_strings", "coord", "result.extend(coord_to_strings_func(coord))"), ("strings_to_coords", "token", "result.append(coord)")):
-        fn = ctx.index.func(f"{TU}.{fn_name}")
-        loops = [n for n in fn.node.body if isinstance(n, ast.For)]
-        table = {}
-        if len(loops) == 1:
-            for n in ast.walk(loops[0]):
-                if isinstance(n, ast.If) and isinstance(n.test, ast.Compare) and X.U(n.test.left) == "when_noncoord" and isinstance(n.test.comparators[0], ast.Constant):
-                    act = X.U(n.body[0])[:40] if n.body else None
-                    table[n.test.comparators[0].value] = "continue" if isinstance(n.body[0], ast.Continue) else ("raise" if isinstance(n.body[0], ast.Raise) else act)
-        okf = table.get("skip") == "continue" and table.get("error") == "raise" and (table.get("include") or "").startswith("result.append(") and conv in X.U(fn.node)
-        ctx.judge(fn, okf, {"when_noncoord": table}, f"{fn_name}: non-coordinates are skipped / rejected / kept as they are according to when_noncoord; coordinates are converted in order",
-                  "special tokens are dropped or duplicated while converting between coordinates and strings")
+    toks = ["(1,2)", "<-->", "(3,4)", ";", "(10,0)"]
+    coords = [(1, 2), "<-->", (3, 4), ";", (10, 0)]
+    want_s2c = {"skip": [(1, 2), (3, 4), (10, 0)], "error": "raises ValueError", "include": coords, "bogus": "raises ValueError"}
+    bad, unk = [], []
+    p_s = sc.params()
+    for pol, want in want_s2c.items():
+        for text in (list(toks), " ".join(toks)):
+            try:
+                got = run(sc, {p_s[0]: text, p_s[1]: pol})
+            except Unknown as e:
+                unk.append(str(e)[:120])
+                continue
+            if got != want:
+                bad.append({"when_noncoord": pol, "input": "list" if isinstance(text, list) else "string", "found": repr(got)[:120], "expected": repr(want)[:120]})
+    try:
+        got = run(sc, {p_s[0]: ["(1,2)", "(3,4)"], p_s[1]: "error"})
+        if got != [(1, 2), (3, 4)]:
+            bad.append({"when_noncoord": "error", "input": "coordinates only", "found": repr(got)[:120]})
+    except Unknown as e:
+        unk.append(str(e)[:120])
+    ctx.judge(sc, False if bad else None if unk else True, {"deviations": bad[:3], "undecided": unk[:2]},
+              "strings_to_coords: list and string inputs parse alike; non-coordinates are skipped / rejected / kept as they are according to when_noncoord; coordinates are converted in order",
+              "special tokens are dropped or duplicated while converting between coordinates and strings")
+    cs_ = ctx.index.func(f"{TU}.coords_to_strings")
+    p_c = cs_.params()
+    want_c2s = {"skip": ["(1,2)", "(3,4)", "(10,0)"], "error": "raises ValueError", "include": toks, "bogus": "raises ValueError"}
+    bad, unk = [], []
+    for pol, want in want_c2s.items():
+        try:
+            got = run(cs_, {p_c[0]: list(coords), p_c[1]: "<coord_to_strings_func>", p_c[2]: pol})
+        except Unknown as e:
+            unk.append(str(e)[:120])
+            continue
+        if got != want:
+            bad.append({"when_noncoord": pol, "found": repr(got)[:120], "expected": repr(want)[:120]})
+    ctx.judge(cs_, False if bad else None if unk else True, {"deviations": bad[:3], "undecided": unk[:2]},
+              "coords_to_strings: non-coordinates are skipped / rejected / kept as they are according to when_noncoord; coordinates are converted in order",
+              "special tokens are dropped or duplicated while converting between coordinates and strings")
     ic = ctx.index.func(f"{TU}.str_is_coord")
     t = X.U(ic.node)
     ok = "coord_str.startswith('(')" in t and "coord_str.endswith(')')" in t and "',' in coord_str" in t and "strip_func(x).isdigit()" in t
@@ -330,6 +384,6 @@ RULES = [
     Rule("C07.L2", rule_L2, floor=10, doc="legacy writer/reader delimiters"),
     Rule("C07.L3", rule_L3, floor=3, doc="default-equivalence table"),
     Rule("C07.L4", rule_L4, floor=5, doc="dataset-level tokenization (siblings)"),
-    Rule("C07.L5", rule_L5, floor=7, doc="parser / writer coordinate grammar and conversion loops"),
+    Rule("C07.L5", rule_L5, floor=6, doc="parser / writer coordinate grammar and conversion loops"),
     Rule("C07.L6", rule_L6, floor=6, doc="parsing pipeline"),
 ]
